@@ -114,7 +114,12 @@ def handle (op : String) (req : Json) : Except String Json :=
       let eff := configure (fun _ => true) env dotenv file opts
       let expl := configure (fun _ => true) [] [] file opts
       let j := outcomeJ kidsJ eff
-      pure (j.mergeObj (Json.mkObj [("explicit", match expl with | .ok t => kidsJ t | _ => Json.null), ("dom", cfgDom file)]))
+      -- `unencodable`: the keys `require_encodable_text` can name in the merge of the options into the file (dotted; null: the call
+      -- ends before the check)
+      let bad : Json := match explicitOf file opts with
+        | some ex => Json.arr ((badKeysKids [] ex).map (fun p => Json.str (".".intercalate p))).toArray
+        | none => Json.null
+      pure (j.mergeObj (Json.mkObj [("explicit", match expl with | .ok t => kidsJ t | _ => Json.null), ("dom", cfgDom file), ("unencodable", bad)]))
   | "c17.ready" => do
     let gs : GenSet ← (match req.getObjVal? "set" with
       | .ok .null => pure none
